@@ -56,6 +56,13 @@ def path_values(fn_node, target_stmt, expr, limit=400):
       elif k == 'stmt' and isinstance(a, ast.Assign) and len(a.targets) == 1 and \
           isinstance(a.targets[0], ast.Name):
         env[a.targets[0].id] = subst(a.value, env)
+      elif k == 'stmt' and isinstance(a, ast.Assign) and all(
+          isinstance(t, ast.Name) for t in a.targets) and isinstance(
+              a.value, (ast.Constant, ast.Name)):
+        # a = b = None
+        v = subst(a.value, env)
+        for t in a.targets:
+          env[t.id] = copy.deepcopy(v)
       elif k == 'stmt' and isinstance(a, (ast.Assign, ast.AugAssign, ast.For)):
         for t in ast.walk(a):
           if isinstance(t, ast.Name) and isinstance(t.ctx, ast.Store):
